@@ -79,7 +79,13 @@ type pfbObs struct {
 // sizes and checks every Read against the model while the run proceeds.
 func runPFB(data []byte, m pfbModel, sch sim.Schedule, tape *sim.Tape, nextBuf func() int, st *sim.Stats, explain bool) (*sim.Outcome, []pfbRead, pfbObs) {
 	src := sim.NewSimReader(data, sch, sim.Fault{}, tape)
-	r := pfb.Decode(src.Reader())
+	var under io.Reader = src.Reader()
+	if sch.Seekable {
+		// a source that has a Seek method which always fails (a pipe or socket
+		// opened as a file): a decoder has no business seeking
+		under = unseekable{src}
+	}
+	r := pfb.Decode(under)
 	var got []byte
 	var trace []pfbRead
 	var termErr error
@@ -201,7 +207,7 @@ func C14() *sim.Check {
 		p, an := gen.GenPFB(t, 6, 300, gen.PFBShortBinary, gen.PFBShortText, gen.PFBBadHeader, gen.PFBPartialHeader)
 		data := p.Bytes()
 		m := modelPFB(p)
-		sch := gen.GenSchedule(t, len(data), false)
+		sch := gen.GenSchedule(t, len(data), true)
 		nextBuf, bdesc := gen.GenBufSizes(t)
 		out, trace, ob := runPFB(data, m, sch, t, nextBuf, c.St, c.Explain)
 		if c.St != nil {
@@ -282,7 +288,7 @@ func C14() *sim.Check {
 		hc := hugeCases[c.Index]
 		src := &virtualPFB{typ: hc.typ, n: hc.n}
 		r := pfb.Decode(src)
-		buf := make([]byte, 1<<20)
+		buf := make([]byte, 3<<20)
 		var total int64
 		var termErr error
 		for {
@@ -311,6 +317,14 @@ func C14() *sim.Check {
 			if err != nil {
 				termErr = err
 				break
+			}
+			if n < len(buf) && total < func() int64 {
+				if hc.typ == 2 {
+					return 2 * hc.n
+				}
+				return hc.n
+			}() {
+				return &sim.Outcome{Class: "short-read", Key: "pfb:huge:short-read", Detail: fmt.Sprintf("Read with a %d-byte buffer returned %d bytes and no error although %d more bytes of output were due", len(buf), n, hc.n-total)}
 			}
 		}
 		wantTotal := hc.n
@@ -384,4 +398,12 @@ func (v *virtualPFB) Read(p []byte) (int, error) {
 		}
 	}
 	return n, nil
+}
+
+// unseekable is a reader whose Seek method always fails.
+type unseekable struct{ r *sim.SimReader }
+
+func (u unseekable) Read(p []byte) (int, error) { return u.r.Read(p) }
+func (u unseekable) Seek(int64, int) (int64, error) {
+	return 0, fmt.Errorf("seek: illegal seek")
 }
